@@ -61,3 +61,27 @@ let edit_op (p : profile) (t : Stdlib.String.t array) : Stdlib.String.t =
       | Ok l -> "ok " ^ (if l = [] then "-" else Stdlib.String.concat "," (Stdlib.List.map hex_of_bytes l))
       | Err -> "err"
       | Panic s -> "panic " ^ string_of_n s)
+
+(* export <rpus> : scenes, level5 config, summary figures *)
+let export_op (p : profile) (t : Stdlib.String.t array) : Stdlib.String.t =
+  match parse_rpus p t.(1) with
+  | Err -> "err parse"
+  | Panic s -> "panic " ^ string_of_n s
+  | Ok rpus ->
+      let cat sep f l = if l = [] then "-" else Stdlib.String.concat sep (Stdlib.List.map f l) in
+      let rec int_of_nat = function O -> 0 | S k -> 1 + int_of_nat k in
+      let sc = scenes rpus in
+      let ps, eds = l5_export rpus in
+      let k4 (((a, b), c), d) = Stdlib.String.concat ":" (Stdlib.List.map string_of_z [ a; b; c; d ]) in
+      let ver, counts = dm_version rpus in
+      "ok scenes=" ^ cat "," string_of_n sc
+      ^ " presets=" ^ cat ";" k4 ps
+      ^ " edits=" ^ cat ";" (fun ((a, b), id) -> string_of_n a ^ "-" ^ string_of_n b ^ ":" ^ string_of_int (int_of_nat id)) eds
+      ^ " count=" ^ string_of_int (Stdlib.List.length rpus)
+      ^ " profiles=" ^ cat "," string_of_n (profiles rpus)
+      ^ " dm=" ^ string_of_n ver ^ (match counts with Some (a, b) -> ":" ^ string_of_n a ^ ":" ^ string_of_n b | None -> "")
+      ^ " scenecount=" ^ string_of_n (scene_count rpus)
+      ^ " maxcll=" ^ string_of_z (maxcll_pq rpus) ^ " maxfall=" ^ string_of_z (maxfall_pq rpus)
+      ^ " l2=" ^ cat "," string_of_z (l2_targets rpus)
+      ^ " l6=" ^ cat ";" (fun l -> Stdlib.String.concat ":" (Stdlib.List.map string_of_z l)) (l6_list rpus)
+      ^ " mastering=" ^ cat ";" (fun (a, b) -> string_of_z a ^ ":" ^ string_of_z b) (mastering rpus)
